@@ -256,9 +256,14 @@ func TestC01(t *testing.T) {
 }
 
 func TestC02(t *testing.T) {
-	Ev.Rule = "same generated space as C01. Oracle: every returned row is a stored (nil-acked) row matching bloom AND regex under the reference semantics, at most once; without prefilter result == matching stored rows exactly; with prefilter, per block (membership read back through MetaStore + ReadDataBlockRowData) matching rows are all-or-none, blocks whose metadata satisfies the tree (exists-semantics, saturated bounds open) are all returned, blocks lacking referenced metadata return nothing; stored world unchanged by queries. Non-trivial: exact phase: 0 < matching < stored; prefilter phase: some block holds matching rows and its metadata does not satisfy the prefilter. Distinct by hash(query, matching ids, layout)."
+	Ev.Rule = "same generated space as C01. Oracle: every returned row is a stored (nil-acked) row matching bloom AND regex under the reference semantics, at most once; without prefilter result == matching stored rows exactly; with prefilter, per block (membership read back through MetaStore + ReadDataBlockRowData) matching rows are all-or-none, blocks whose metadata satisfies the tree (exists-semantics, saturated bounds open) are all returned, blocks lacking referenced metadata return nothing; stored world unchanged by queries; blockmeta phase: generated block metadata (ranges folded from values of every numeric kind) x prefilter trees judged directly on EvaluateDataBlockMetadata/FilterDataBlocks. Non-trivial: exact phase: 0 < matching < stored; prefilter phase: some block holds matching rows and its metadata does not satisfy the prefilter. Distinct by hash(query, matching ids, layout)."
 	Ev.Assumptions = []string{"same undecidable-row exemption as C01", "block membership is read with the library's public read helpers"}
 	runChecks(t, "search", 250, 8000, genSearchCase(searchOpts, 10, true), runSearchProperty(judgeC02))
 	runChecks(t, "merged", 150, 5000, genSearchCase(mergeHeavyOpts, 10, true), runSearchProperty(judgeC02))
 	runChecks(t, "minmax", 120, 4000, genSearchCase(minMaxOpts, 8, true), runSearchProperty(judgeC02))
+	// the block-granular clauses on the public evaluation function that both the
+	// MetaStore filter and the engine's own re-filter use: a block whose metadata
+	// satisfies the tree (exists-semantics) is included, a block lacking
+	// metadata a needed condition references is not
+	runChecks(t, "blockmeta", 10000, 400000, genC04Tree(), runC04Tree)
 }
